@@ -25,7 +25,7 @@ CHUNK = 3
 
 def cases(tier, seed):
     thorough = tier == "thorough"
-    outs = ["single", "two", "feeds", "feeds-rev", "inner"]
+    outs = ["single", "two", "feeds", "feeds-rev", "inner", "sub"]
     for tree, prod, style, nary in pools.structure_pool("thorough"):
         nv = len(A.tree_vars(tree))
         for kin, ksum in ([(2, 2), (1, 2)] if not thorough else [(2, 2), (1, 2), (2, 1), (3, 3), (1, 1)]):
@@ -37,7 +37,7 @@ def cases(tier, seed):
                 for inp, vk in [("emb", "generic"), ("cat-softmax", "monotone"), ("gau", "monotone")]:
                     if not thorough and inp == "gau" and (outputs != "single" or (kin, ksum) != (2, 2)):
                         continue
-                    circ = dict(tree=tree, prod=prod, style=style, nary=nary, kin=kin, ksum=ksum, kout=ksum if outputs == "inner" else 1,
+                    circ = dict(tree=tree, prod=prod, style=style, nary=nary, kin=kin, ksum=ksum, kout=ksum if outputs in ("inner", "sub") else 1,
                                 inp=inp, numbering="h8" if kin == 2 else "id", outputs=outputs)
                     yield {"mode": "base", "circ": circ, "vk": vk}
                     if outputs in ("single", "two") and (kin, ksum) in ((2, 2), (1, 2)) and (nv <= 2 or thorough or inp == "emb"):
